@@ -18,6 +18,12 @@ CLAIMS = {
         text="Bounded symbolic execution of the real asn1 reader/writer: for each shape (octet count, content length threshold, nesting) every path of the code is executed once on symbolic values and each obligation (two's-complement value, minimality, base-128/base-256 header arithmetic, exact consumption, header vs an independent X.690 reference on every byte string up to the bound) is a z3 validity query; a SAT answer is replayed on the real package before it is reported.",
         ref="DESIGN.md 3/C07", technique="symbolic execution of the real source (SX proxies) + z3 validity queries against arithmetic specifications"),
 }
+CLAIMS["C05"] = dict(
+    text="Bounded symbolic execution of LDAPClient/LDAPServer.receive: every byte string up to the bound (all octets symbolic), 2/3-octet symbolic windows at every offset of seed encodings of every message kind, every truncation, whole and cut deliveries, from every session pre-state. Per path: only a list or ProtocolError may come out; afterwards CLOSED, further input refused, and the attached notification strict-decodes with an independent RFC 4511 decoder to unbind/notice of disconnection.",
+    ref="DESIGN.md 3/C05", technique="symbolic execution of the real receive path (SX) + z3; counterexamples replayed on the real package")
+CLAIMS["C06"] = dict(
+    text="Same exploration as C05 plus envelopes with symbolic interiors followed by a valid message; an independent framer of the outer TLV headers runs on the same symbolic bytes and the obligation 'messages returned == complete units delivered' is discharged by z3 on every error-free path.",
+    ref="DESIGN.md 3/C06", technique="symbolic execution of the real receive path (SX) + independent TLV framer as oracle, z3 validity queries")
 PENDING = {}
 
 def main():
